@@ -118,3 +118,92 @@ func TestVerifC18HTTP(t *testing.T) {
 		}
 	}
 }
+
+// What the node prints when its configuration is refused: cmd/main.go prints the LoadConfig error and exits.  Secrets that
+// were picked up in a malformed shape (quotes kept by an env file, a missing scheme, a leading blank, a wrong separator)
+// must not be in that text.
+//
+//	> load <env|flags> <field> <variant>
+//	< refused leaks=<none|names of the secrets found in the error text>   |   < accepted
+func TestVerifC18Load(t *testing.T) {
+	tr := vh.OpenTranscript("c18load.impl.txt")
+	defer tr.Close()
+	const (
+		walletKey = "ac0974bec39a17e36ba4a6b4d238ff944bacb478cbed5efcae784d7bf4f2ff80"
+		mnemonic  = "marker1 marker2 marker3 marker4 marker5 marker6 marker7 marker8 marker9 marker10 marker11 junk"
+		apiKey    = "MarkerApiKeyOfTheNodeProvider"
+	)
+	secrets := map[string]string{"wallet-key": walletKey, "mnemonic": "marker1 marker2", "mnemonic-tail": "marker7 marker8", "node-api-key": apiKey}
+	good := map[string]string{"WALLET_PRIVATE_KEY": "0x" + walletKey, "CONTRACT_MNEMONIC": mnemonic,
+		"ETH_NODE_ADDRESS": "wss://eth-node.example.com/v2/" + apiKey, "CLONE_FACTORY_ADDRESS": "0x5FbDB2315678afecb367f032d93F642f64180aa3",
+		"POOL_ADDRESS": "stratum+tcp://account.worker:@pool.example.com:3333", "WEB_ADDRESS": "127.0.0.1:8080"}
+	flagOf := map[string]string{"WALLET_PRIVATE_KEY": "wallet-private-key", "CONTRACT_MNEMONIC": "contract-mnemonic", "ETH_NODE_ADDRESS": "eth-node-address",
+		"CLONE_FACTORY_ADDRESS": "contract-address", "POOL_ADDRESS": "pool-address", "WEB_ADDRESS": "web-address"}
+	variants := map[string]func(string) string{
+		"quoted":        func(v string) string { return `"` + v + `"` },
+		"single-quoted": func(v string) string { return `'` + v + `'` },
+		"leading-blank": func(v string) string { return " " + v },
+		"no-scheme":     func(v string) string { return strings.TrimPrefix(strings.TrimPrefix(strings.TrimPrefix(v, "wss://"), "stratum+tcp://"), "0x") },
+		"backslash":     func(v string) string { return strings.ReplaceAll(v, "/", `\`) },
+		"empty":         func(v string) string { return "" },
+		"truncated":     func(v string) string { return v[:len(v)/2] },
+	}
+	var vnames []string
+	for n := range variants {
+		vnames = append(vnames, n)
+	}
+	sort.Strings(vnames)
+	var fields []string
+	for n := range good {
+		fields = append(fields, n)
+	}
+	sort.Strings(fields)
+	oldArgs := os.Args
+	defer func() { os.Args = oldArgs }()
+	c := 0
+	for _, how := range []string{"env", "flags"} {
+		for _, field := range fields {
+			for _, vn := range vnames {
+				tr.Case(c, "load")
+				c++
+				tr.Op("load %s %s %s", how, field, vn)
+				for n := range good {
+					t.Setenv(n, "")
+				}
+				for _, n := range []string{"WEB_PUBLIC_URL", "PROXY_ADDRESS", "LOG_FOLDER_PATH", "VALIDATOR_REGISTRY_ADDRESS"} {
+					t.Setenv(n, "")
+				}
+				args := []string{"proxy-router"}
+				for n, v := range good {
+					if n == field {
+						v = variants[vn](v)
+					}
+					if how == "env" {
+						t.Setenv(n, v)
+					} else {
+						args = append(args, "--"+flagOf[n]+"="+v)
+					}
+				}
+				os.Args = args
+				var cfg config.Config
+				err := config.LoadConfig(&cfg, &os.Args)
+				if err == nil {
+					tr.Out("accepted")
+					continue
+				}
+				var found []string
+				for name, s := range secrets {
+					if strings.Contains(err.Error(), s) {
+						found = append(found, name)
+					}
+				}
+				sort.Strings(found)
+				if len(found) == 0 {
+					tr.Out("refused leaks=none")
+				} else {
+					tr.Out("refused leaks=%s", strings.Join(found, ","))
+				}
+			}
+		}
+	}
+}
